@@ -1011,10 +1011,15 @@ class Interp:
             return res
         if name in COMBINATORS_PASS:
             return [(w, env, v, None)]
-        if clo is not None and self.closure_has_step(clo):
-            if name in ("map_err", "ok_or_else", "unwrap_or_else", "or_else") :
-                return [(w, env, v if name == "map_err" else UNK, None)]       # runs on the failure side only
+        if clo is not None and self.closure_has_step(clo) and name not in ("map_err", "ok_or_else", "unwrap_or_else", "or_else", "and_then", "map",
+                                                                          "is_some_and", "is_ok_and"):
             self.fail("step-inside-closure:" + name)
+        if name in ("or_else", "unwrap_or_else") and clo is not None:
+            # the closure runs on the failure side only; every call succeeds unless the case says otherwise
+            if v[0] in ("err", "none"):
+                outs = run_closure(("errval", v[1]) if v[0] == "err" else UNK)
+                return outs if name == "or_else" else [(a, b, UNK, None) for (a, b, _c, _f) in outs]
+            return [(w, env, v if name == "or_else" else (v[1] if v[0] in ("ok", "some") else UNK), None)]
         if name == "map_err":
             if v[0] == "err" and clo is not None:
                 outs = run_closure(("errval", v[1]))
